@@ -1695,9 +1695,10 @@ def _c11_conc(ctx):
     def cfgline(t):
         first, rest = t.split("\n", 1)
         first = re.sub(r" gcmodel=\S+", "", first)
-        if "quiet_ms=" not in first:
-            first += " quiet_ms=250"
+        first = re.sub(r" quiet_ms=\d+", "", first) + " quiet_ms=250"     # the model-replay families wait 3 s per blocked step; here only the files are judged
         return first + " drain=1\n" + rest
+    # rate-limited stores are left out: the drain phase writes through the reopened store, whose limiter would make its own Puts wait for a flush
+    scen = [t for t in scen if " rate=" not in t.split("\n")[0]]
     scen = [t if " drain=1" in t.split("\n")[0] else cfgline(t) for t in scen]
     res = run_conc(scen, wd, "c11conc", proc_timeout=180)
     viol, judged = [], 0
